@@ -101,7 +101,7 @@ class Gen:
         if x < 0.80:
             return [r.choice(["0", "1", "2", "3", "10", "01", "00", "1.", "2.5"])]
         if x < 0.86:
-            return [r.choice(["f(a)", "log(b)", "{a+1}", "C(c, contr.treatment)", "`x y`", "np.log( a )"])]
+            return [r.choice(["f(a)", "log(b)", "{a+1}", "C(c, contr.treatment)", "`x y`", "np.log( a )", "`a:b`", "`a:b`", "`b:c:a`"])]
         if x < 0.90:
             return ["."]
         if x < 0.92:
